@@ -99,13 +99,14 @@ func TestClusterFaults(t *testing.T) {
 			crashed := make(chan struct{})
 			g.onCrash = func() { close(crashed) }
 			opDone := make(chan []Event, 1)
-			go func() { opDone <- env.Exec(&in.Scenario, b, "op", 60*time.Second) }()
+			go func() { opDone <- env.Exec(&in.Scenario, b, "op", 20*time.Second) }()
 			var opEvs []Event
 			select {
 			case <-crashed:
 			case opEvs = <-opDone: // the op finished before reaching call #crashAt
-			case <-time.After(60 * time.Second):
-				t.Fatalf("neither crash nor return")
+			case <-time.After(25 * time.Second):
+				// neither crashed nor returned: the operation hangs before reaching call #crashAt
+				opEvs = []Event{{"ev": "Call", "op": "op", "kind": in.Op.Kind, "spec": in.Op}, {"ev": "Return", "op": "op", "kind": in.Op.Kind, "class": "hang", "err": "no return within watchdog"}}
 			}
 			if opEvs == nil {
 				// the instance is dead: release its locks (lease expiry), close its WAL file, start a new instance, recover
@@ -135,7 +136,7 @@ func TestClusterFaults(t *testing.T) {
 			evs = append(evs, opEvs[1:]...)
 			k = g.Calls()
 		} else {
-			opEvs := env.Exec(&in.Scenario, b, "op", 60*time.Second)
+			opEvs := env.Exec(&in.Scenario, b, "op", 20*time.Second)
 			if !env.Quiesce(20 * time.Second) {
 				t.Logf("run %d did not settle", run)
 			}
